@@ -72,21 +72,25 @@ class FitnessEvalLimitReached(GlobalStopCondition):
     def __call__(self, tree: "DemeTree") -> bool:
         levels = tree.config.levels
         n_levels = len(levels)
-        if self.weights is None or isinstance(self.weights, str):
-            self._transform_weights(n_levels)
+        # A weighting strategy is resolved for the tree at hand on every call: the same condition object
+        # may be used by trees of different heights.
+        weights = self._transform_weights(n_levels)
 
         n_evals = 0
         for _, deme in tree.all_demes:
-            n_evals += self.weights[deme._level] * deme.n_evaluations  # type: ignore
+            n_evals += weights[deme._level] * deme.n_evaluations  # type: ignore
 
         return n_evals >= self.limit
 
     def _transform_weights(self, n_levels: int):
-        if self.weights == WeightingStrategy.ROOT:
-            self.weights = [0 for _ in range(n_levels)]
-            self.weights[0] = 1
-        elif self.weights == WeightingStrategy.EQUAL or self.weights is None:
-            self.weights = [1 for _ in range(n_levels)]
+        if self.weights is None:
+            return [1 for _ in range(n_levels)]
+        if isinstance(self.weights, str):
+            if self.weights == WeightingStrategy.ROOT:
+                return [1] + [0 for _ in range(n_levels - 1)]
+            if self.weights == WeightingStrategy.EQUAL:
+                return [1 for _ in range(n_levels)]
+        return self.weights
 
     def __str__(self) -> str:
         return f"FitnessEvalLimitReached(limit={self.limit}, weights={self.weights})"
